@@ -222,6 +222,19 @@ CHECKS["C20"] = dict(
          "configurations no AsyncStackRoot may remain current on the driver thread once a scenario is quiescent.",
     note=EXPR_NOTE + " g++/libstdc++ only; coroutine plans are compared only between the C++20 configurations (see C10).")
 
+CHECKS["C10"] = dict(
+    level="exploration", design="5 C10",
+    technique="runtime monitoring of generated coroutine programs: a task<> plan interpreter (one binary, plans are data) "
+              "run under ASan+UBSan with object/frame ledger, counting stop token and poisoned operation arena; offline "
+              "comparison of every event log with an executable reference model of task<>; direct log rules for cleanup "
+              "exactly-once / frame exactly-once / nothing-after-completion",
+    text="Every generated nesting of task<> bodies (await value/error/done leaves, nested tasks, at_coroutine_exit actions, "
+         "locals, throw, plain awaitables, stop_if_requested) is executed under every scenario of the stated families with "
+         "three receiver token flavours; the observed log - resumption values and contexts, exceptions, done unwinding, "
+         "cleanup order relative to local destruction and to the parent's resumption, frame destruction, stop delivery to "
+         "the awaited leaf, root completion - must equal the model's.",
+    note="g++ -std=c++20 only; single driver thread (stop requests are injected at every driver position, not raced).")
+
 NOT_YET = "check not built yet (construction in progress, see DESIGN.md section 10)"
 
 
